@@ -195,6 +195,12 @@ const POOL: &[&[u8]] = &[
     b"\n",
     b" \n",
     b"A:B",
+    // several units, a later one with a newline inside its payload
+    b"A:B;S 'p\nq';E\n",
+    b"A:B;E;K #13a\nb\n",
+    // a quote that is never closed: everything after it is swallowed until the buffer overflows
+    b"A:B;S 'p\n",
+    b"*R;K #2",
 ];
 
 fn streams_from_pool(max_msgs: usize) -> Vec<Vec<u8>> {
@@ -402,6 +408,43 @@ fn main() {
             distinct.merge(d);
         }
     }
+    // (b') parameter lists of 0..=16 parameters of every data kind on several headers
+    let mut many_execs = 0u64;
+    {
+        let headers: &[&[u8]] = &[b"B", b"A:B", b"A:N", b"A:K", b"Z", b"*R", b"B?", b"A:Q?"];
+        let lits: &[&[u8]] = &[b"1", b"'x'", b"#11x", b"ON", b"#HFF", b"1.5E3"];
+        let mut msgs2: Vec<Vec<u8>> = vec![];
+        for h in headers {
+            for l in lits {
+                for m in 0..=16usize {
+                    for sep in [&b","[..], &b" , "[..]] {
+                        let mut v = h.to_vec();
+                        for k in 0..m {
+                            v.extend_from_slice(if k == 0 { b" " } else { sep });
+                            v.extend_from_slice(l);
+                        }
+                        v.push(b'\n');
+                        msgs2.push(v);
+                    }
+                }
+            }
+        }
+        for x in &msgs2 {
+            for wk in [Wk::Heapless(8), Wk::Rec(usize::MAX)] {
+                let o = run_case(x, wk);
+                many_execs += 1;
+                if let Some((kind, detail)) = judge_run(&o) {
+                    add_run_violation(&mut out.groups, x, wk, kind, &detail);
+                }
+            }
+            let sizes = [x.len()];
+            let o = proc_case(64, x, &sizes);
+            many_execs += 1;
+            if let Some((kind, detail)) = judge_proc(&o) {
+                add_proc_violation(&mut out.groups, 64, x, &sizes, kind, &detail);
+            }
+        }
+    }
     let t_cap = t0.elapsed().as_secs_f64();
 
     // (c) ENV: process::<N>
@@ -462,7 +505,7 @@ fn main() {
     if cfg!(microscpi_verif) && hook_calls == 0 {
         out.machinery_errors.push("hook was never called".into());
     }
-    let total = lex_execs + lex2_execs + cap_execs + env_execs;
+    let total = lex_execs + lex2_execs + cap_execs + many_execs + env_execs;
     out.cov("states", lex_cases + msgs.len() as u64 + env_streams);
     out.cov("transitions", total);
     out.cov("traces_validated_against_impl", total);
@@ -482,6 +525,7 @@ fn main() {
             "alphabet": lex::sigma_json(),
             "lex_run": {"max_tokens": lex_len, "writers": lex_writers.iter().map(|w| w.json()).collect::<Vec<_>>(), "strings": lex_cases, "executions": lex_execs},
             "lex_run_other_writers": {"max_tokens": lex2_len, "writers": writers2.iter().map(|w| w.json()).collect::<Vec<_>>(), "executions": lex2_execs},
+            "many_parameters": {"headers": 8, "literal_kinds": 6, "parameters": "0..=16", "executions": many_execs},
             "capacity_sweep": {"messages": msgs.len(), "capacities": "recorder 0..=64, heapless {0,1,2,8,9,16,41,64}", "executions": cap_execs},
             "process": {"N_for_pool_streams": ns_pool, "N_for_token_streams": ns_lex, "pool_messages": POOL.len(),
                         "pool_streams": pool_streams.len(), "token_streams": lex_streams.len(),
